@@ -276,6 +276,46 @@ def untracked_case(args):
     Lq.backward()
     if q.grad is None or not np.array_equal(q.grad, 2 * xa):
         fails.append("backward() after a no-op backward inside no_autodiff is wrong")
+    # ... for every kind of tensor it is called on: terminal, intermediate, view, constant result of a tracked op,
+    # with and without a seed — creators, consumers, gradients and locks of the whole graph stay as they were, and the
+    # graph still back-propagates afterwards
+    for kind in ("terminal", "intermediate", "view", "constant-with-creator", "seeded"):
+        a = mg.tensor(xa)
+        m = a * ya
+        c = mg.multiply(m, ya, constant=True)  # a constant tensor that has a creator (tracked op, constant=True)
+        vw = m[0]
+        Lk = (m * m).sum() + vw.sum()
+        target = {"terminal": Lk, "intermediate": m, "view": vw, "constant-with-creator": c, "seeded": m}[kind]
+        graph = [a, m, c, vw, Lk]
+        before = [(t.creator, len(getattr(t, "_ops", ())), t.grad, t.data.flags.writeable) for t in graph]
+
+        def call():
+            if kind == "seeded":
+                target.backward(np.ones(m.shape))
+            else:
+                target.backward()
+
+        if wrap == "with":
+            with mg.no_autodiff:
+                call()
+        else:
+            mg.no_autodiff(call)()
+        after = [(t.creator, len(getattr(t, "_ops", ())), t.grad, t.data.flags.writeable) for t in graph]
+        for nm_, b_, a_ in zip(("leaf", "product", "constant result", "view", "loss"), before, after):
+            if b_[0] is not a_[0] or b_[1] != a_[1] or (b_[2] is None) != (a_[2] is None) or b_[3] != a_[3]:
+                fails.append(f"backward() on a {kind} tensor inside no_autodiff changed the graph: the {nm_} tensor's "
+                             f"(creator, #consumers, grad, writeable) went from {(type(b_[0]).__name__, b_[1], b_[2] is not None, b_[3])} "
+                             f"to {(type(a_[0]).__name__, a_[1], a_[2] is not None, a_[3])}")
+                break
+        else:
+            try:
+                Lk.backward()
+                exp = 2 * (xa * ya) * ya
+                exp[0] += ya[0]
+                if a.grad is None or not np.allclose(a.grad, exp):
+                    fails.append(f"after a no-op backward() on a {kind} tensor inside no_autodiff the graph back-propagates wrongly")
+            except Exception as e:  # noqa: BLE001
+                fails.append(f"after backward() on a {kind} tensor inside no_autodiff, backward() outside raised {type(e).__name__}")
     # in-place updates write into the tensor's own memory
     iname, iop = rng.choice(INPLACE)
     t = mg.tensor(xa)
